@@ -8,6 +8,35 @@ from ..hlib import c19 as L
 from .common import BASE_ASSUMPTIONS, ROOT, Cond, Spec
 
 
+def long_run_probe(tier):
+    def run():
+        import json
+        import os
+        import tempfile
+
+        from ..hlib import c19n as N
+
+        d = tempfile.mkdtemp(prefix="c19n_", dir=os.path.join(ROOT, "work"))
+        try:
+            n, bad = N.run_all(d)
+        finally:
+            import shutil
+
+            shutil.rmtree(d, ignore_errors=True)
+        viol = []
+        rd = os.path.join(ROOT, "replays", "C19")
+        os.makedirs(rd, exist_ok=True)
+        for i, b in enumerate(bad[:4]):
+            path = os.path.join(rd, f"{tier}_longrun_{i}.py")
+            with open(path, "w") as f:
+                f.write("#!/verif/.venv/bin/python\n# a parser of the client does not answer in bounded time on this line. Exit 1 = reproduced.\n"
+                        f"import sys\nsys.path.insert(0, {ROOT!r})\nfrom vlib.hlib import c19n\nsys.exit(c19n.replay({b['parser']!r}, {b['input'].encode('utf-8').hex()!r}))\n")
+            viol.append({"key": "parser:no-answer-in-bounded-time", "replay": path, "call": json.dumps({"parser": b["parser"], "input": b["input"][:120]}), "what": b["what"]})
+        return {"violations": viol, "evaluations": n, "sigs": ["long-run-probe"], "discharged": 0,
+                "summary": f"auxiliary, measured (not a solver verdict): {n} lines with a {N.RUN}-character run through {len(N.TEMPLATES)} client parsers, each answered within {N.SLOW_S} s" if not bad else f"{len(bad)} probes without a timely answer"}
+    return run
+
+
 def build(tier):
     q = tier == "quick"
     src = hgen.preamble("C19", tier, ROOT) + "import vlib.hlib.c19 as L\n"
@@ -90,5 +119,6 @@ def build(tier):
             "after every verb prefix: nothing escapes, that session is released (socket closed, connection table, listeners) and a concurrent session's transcript is untouched."
         ),
         assumptions=BASE_ASSUMPTIONS + ["asyncio.StreamReader.readline raises ValueError for an over-long line (modelled by the scripted reader)"],
+        native=[("parsers_answer_in_bounded_time", long_run_probe(tier))],
         extra={"stubs": STUBS + ["client.get_stream replaced by scripted data streams for the listing conditions", "scripted control channels for the server conditions"]},
     )
